@@ -65,8 +65,16 @@ func c18(r *vc.Run) int {
 	classes := vc.NewDistinct()
 
 	eval := func(total, free uint64, min float64) {
-		if free > total || total > math.MaxInt64 {
+		if free > total {
 			return
+		}
+		if total > math.MaxInt64 {
+			// huge volumes (network / FUSE mounts that report "unlimited"): judged whenever the threshold
+			// itself is an ordinary number; a threshold beyond 2^63 bytes is left out (float -> uint64
+			// conversion of such values is implementation-specific)
+			if fl0, _ := c18Threshold(total, min); fl0 >= math.MaxInt64 {
+				return
+			}
 		}
 		evals++
 		got := watchers.VerifCheckThreshold(total, free, min)
@@ -105,7 +113,7 @@ func c18(r *vc.Run) int {
 	}
 
 	totals := []uint64{0, 1, 4096, 255 * gib, 256*gib - 4096, 256*gib - 1, 256 * gib, 256*gib + 1, 256*gib + 4096, 1 << 40, 1<<53 - 1, 1 << 53, 1<<53 + 1, math.MaxInt64,
-		1000 * 1000 * 1000, 999999999999, 3*gib + 7, 128 * gib, 100*gib + 1, 37}
+		1000 * 1000 * 1000, 999999999999, 3*gib + 7, 128 * gib, 100*gib + 1, 37, 1 << 63, 1<<63 + 4096, math.MaxUint64 - 4095, math.MaxUint64}
 	mins := []float64{0, -1, math.NaN(), 1e-9, 0.3, 1.0 / 3, 1, 20, 49.99, 50, 1e6, 1e30, 0.1, 7.7, 255.999, 2.5e-10}
 	deltas := []int64{-4096, -2, -1, 0, 1, 2, 4096}
 	for _, total := range totals {
@@ -122,6 +130,9 @@ func c18(r *vc.Run) int {
 			}
 			eval(total, 0, min)
 			eval(total, total, min)
+			for _, f := range []uint64{1<<63 - 1, 1 << 63, 1<<63 + 50*gib, 1<<63 + 51*gib, 3 << 62, math.MaxUint64 - 1} {
+				eval(total, f, min) // dropped by eval when free > total
+			}
 		}
 	}
 	// monotonicity on ascending free ladders around the threshold
@@ -160,6 +171,9 @@ func c18(r *vc.Run) int {
 			total = 256*gib + uint64(rng.Int63n(1<<20)) - 1<<19
 		case 2:
 			total = uint64(rng.Int63())
+			if rng.Intn(4) == 0 {
+				total |= 1 << 63
+			}
 		case 3:
 			total = uint64(rng.Int63n(1 << 44))
 		default:
@@ -197,7 +211,10 @@ func c18(r *vc.Run) int {
 				free = uint64(rng.Int63n(int64(total>>1) + 1))
 			}
 		default:
-			free = uint64(rng.Int63()) % (total + 1)
+			free = rng.Uint64()
+			if total < math.MaxUint64 {
+				free %= total + 1
+			}
 		}
 		eval(total, free, min)
 	}
@@ -207,14 +224,14 @@ func c18(r *vc.Run) int {
 		"process_level":       proc,
 		"evaluations":         evals,
 		"distinct_nontrivial": len(nontrivial),
-		"rule":                "boundary grid (20 totals x 16 settings x {floor,ceil of exact threshold} x 7 deltas) + seeded random triples with free <= total < 2^63; non-trivial = distinct (total, free, min) with free within 4096 bytes of the exact threshold",
+		"rule":                "boundary grid (20 totals x 16 settings x {floor,ceil of exact threshold} x 7 deltas) + seeded random triples with free <= total over the whole uint64 range; non-trivial = distinct (total, free, min) with free within 4096 bytes of the exact threshold",
 		"samples":             samples.List(),
 		"boundary_classes":    classes.Counts(),
 		"monotonicity_points": monoChecked,
 	}
 	return r.Finish("exploration", cov, []string{
 		"reference = exact rational arithmetic (math/big) written from the property statement",
-		"free <= total < 2^63 (beyond that Go's float->uint64 conversion is implementation-defined and no volume is that large)",
+		"free <= total <= 2^64-1; cases whose exact threshold is 2^63 bytes or more are left out (Go's float->uint64 conversion of such values is implementation-specific)",
 		"NaN / negative / zero --min-space-required count as 'not given'",
 		"process level: the real CheckDiskUsage on the scratch volume (cases within 256 MiB of the threshold are skipped: other processes write to the volume), the refusal to start judged by exit status 1 and message, the real WatchDiskSpace (40 ms interval) pausing and resuming real stage workers when the setting crosses the free space (plain build; one word-sized store into live configuration)",
 	}, 100)
